@@ -1,1 +1,114 @@
-fn main(){}
+//! C05 worker: runs every input on a 2 MiB thread: parse, print, debug-print, clone, drop,
+//! deserialize. One result line per input, flushed, so that the parent knows which input killed
+//! the process if it dies.
+//!
+//! usage: c05worker <inputs-file> <start-index>
+//! inputs-file: repeated (u32 LE length, bytes)
+
+use std::io::Write;
+
+fn depth_of(doc: &toml_edit::DocumentMut) -> usize {
+    // explicit stack: the measurement itself must not depend on the thread's stack
+    enum N<'a> {
+        I(&'a toml_edit::Item),
+        V(&'a toml_edit::Value),
+        T(&'a toml_edit::Table),
+    }
+    let mut max = 0;
+    let mut stack: Vec<(N, usize)> = vec![(N::I(doc.as_item()), 0)];
+    while let Some((n, d)) = stack.pop() {
+        if d > max {
+            max = d;
+        }
+        match n {
+            N::I(toml_edit::Item::Table(t)) | N::T(t) => {
+                for (_, it) in t.iter() {
+                    stack.push((N::I(it), d + 1));
+                }
+            }
+            N::I(toml_edit::Item::ArrayOfTables(a)) => {
+                for t in a.iter() {
+                    stack.push((N::T(t), d + 1));
+                }
+            }
+            N::I(toml_edit::Item::Value(v)) => stack.push((N::V(v), d)),
+            N::I(toml_edit::Item::None) => {}
+            N::V(toml_edit::Value::Array(a)) => {
+                for e in a.iter() {
+                    stack.push((N::V(e), d + 1));
+                }
+            }
+            N::V(toml_edit::Value::InlineTable(t)) => {
+                for (_, e) in t.iter() {
+                    stack.push((N::V(e), d + 1));
+                }
+            }
+            N::V(_) => {}
+        }
+    }
+    max
+}
+
+fn one(text: &str) -> String {
+    let mut out = String::new();
+    match text.parse::<toml_edit::DocumentMut>() {
+        Ok(doc) => {
+            let depth = depth_of(&doc);
+            let s = doc.to_string();
+            let c = doc.clone();
+            let dbg = format!("{doc:?}");
+            drop(c);
+            let im = toml_edit::ImDocument::parse(text).map(|d| d.to_string().len()).unwrap_or(0);
+            let v: Result<toml::Value, _> = toml_edit::de::from_document(doc);
+            let vs = v.map(|v| {
+                let c2 = v.clone();
+                let s = v.to_string().len();
+                drop(c2);
+                s
+            });
+            out.push_str(&format!("accept depth={depth} printed={} dbg={} im={im} value={}", s.len(), dbg.len(), vs.unwrap_or(0)));
+        }
+        Err(e) => {
+            let rec = e.message().contains("recursion limit");
+            out.push_str(&format!("reject recursion={rec} msg={:?}", e.message().lines().next().unwrap_or("")));
+        }
+    }
+    match toml::from_str::<toml::Value>(text) {
+        Ok(v) => {
+            let c = v.clone();
+            let n = format!("{v:?}").len();
+            drop(c);
+            out.push_str(&format!(" toml=ok:{n}"));
+        }
+        Err(e) => out.push_str(&format!(" toml=err:{}", e.message().contains("recursion limit"))),
+    }
+    out
+}
+
+fn main() {
+    let args: Vec<String> = std::env::args().collect();
+    let data = std::fs::read(&args[1]).expect("inputs file");
+    let start: usize = args.get(2).and_then(|s| s.parse().ok()).unwrap_or(0);
+    let mut inputs: Vec<String> = vec![];
+    let mut p = 0;
+    while p + 4 <= data.len() {
+        let n = u32::from_le_bytes([data[p], data[p + 1], data[p + 2], data[p + 3]]) as usize;
+        p += 4;
+        inputs.push(String::from_utf8_lossy(&data[p..p + n]).to_string());
+        p += n;
+    }
+    let stdout = std::io::stdout();
+    for (i, text) in inputs.into_iter().enumerate().skip(start) {
+        let h = std::thread::Builder::new()
+            .stack_size(2 * 1024 * 1024)
+            .spawn(move || one(&text))
+            .expect("spawn");
+        let line = match h.join() {
+            Ok(l) => l,
+            Err(_) => "panic".to_string(),
+        };
+        let mut lock = stdout.lock();
+        writeln!(lock, "{i} {line}").unwrap();
+        lock.flush().unwrap();
+    }
+}
